@@ -6,6 +6,7 @@ import contextlib
 import gzip
 import io
 import json
+import os
 import lzma
 
 import numpy as np
@@ -82,7 +83,7 @@ def _plan(draw, max_feat):
     if nf >= 2 and draw(st.integers(0, 29)) == 0:
         # a collection of a thousand features and more (the drawn ones over and over): beyond any chunk size
         repeat = draw(st.sampled_from([999, 1000, 1001, 2001, 2500]))
-    return {"repeat": repeat, "keys": keys, "types": types, "features": feats, "top": top,
+    return {"failed_write": draw(st.sampled_from([None, None, None, "directory", "codec", "ascii"])), "repeat": repeat, "keys": keys, "types": types, "features": feats, "top": top,
             "indent": draw(st.sampled_from([None, 0, 2, 4, "default"])),
             "suffix": draw(st.sampled_from(["", "", ".gz", ".bz2", ".xz"]))}
 
@@ -215,6 +216,22 @@ def check(plan, ctx):
     out = ctx.path("out.geojson" + plan["suffix"])
     kw = {} if plan["indent"] == "default" else {"indent": plan["indent"]}
     before = build.snap_frame(data)
+    if plan.get("failed_write"):
+        # history: a write that cannot succeed (the path is a directory, the codec does not exist, the text does not fit
+        # the encoding) comes first: it must leave the frame as it was, and the correct write that follows must not notice
+        how = plan["failed_write"]
+        try:
+            if how == "directory":
+                data.write(os.path.dirname(out), **kw)
+            elif how == "codec":
+                data.write(ctx.path("bad.geojson"), encoding="no-such-codec", **kw)
+            else:
+                data.write(ctx.path("ascii.geojson"), encoding="ascii", **kw)
+            ctx.cls("first_write_succeeded_after_all")
+        except Exception:
+            ctx.cls("after_a_failed_write")
+        if build.snap_frame(data) != before:
+            raise Violation("a failing GeoJSON.write changed its receiver", how=how, names_after=list(dict.keys(data)))
     ctx.call("GeoJSON.write", lambda: data.write(out, **kw))
     if build.snap_frame(data) != before:
         raise Violation("GeoJSON.write changed its receiver")
